@@ -20,7 +20,7 @@ EXPLANATION = (
     "Shared rules: register aliases (C01.T2r), mnemonic synonyms (C01.S), '(rN)' == '@rN' and the other shapes (C01.T2), "
     "bracket transparency (C05.R9), radix spellings (C05.R4), '.word' == implicit list (C06.R23), escape letters (C06.R6e), "
     "RADIX-50 case (C15), '%N' usable wherever 'rN' is (G11).")
-ASSUMPTIONS = ["equivalence under whitespace / comment rewriting of whole programs is parser behaviour on texts and is not decided"]
+ASSUMPTIONS = ["equivalence under whitespace / comment / case rewriting is decided on a 41-statement corpus (C10.parse: the real parser run abstractly), not for arbitrary texts"]
 TRUSTED = ["python ast", "sa.engine.interp"]
 LEVEL_TEXT = "Folding is a def-use fact at each comparison site; table and regex behaviour holds for every key / text."
 LEVEL_NOTE = "the internal-sink table is frozen by function name with a reason each"
@@ -218,7 +218,8 @@ def rule_parsers(ck):
     def th():
         P = I.module_get("parser", "Parser")
         r = I.call(I.getattr(P, "regex"), ["[a-z]+"], {})
-        return r.fields["fn"].env.vars["regex"]
+        from ..rules.world import closure_pattern
+        return closure_pattern(r)
     rx = I.explore(th)[0].value
     ck.instance("regex-default", {"Parser.regex('[a-z]+') flags ignore case": bool(rx.flags & re.I)}, fn="parser::Parser.regex")
     if not rx.flags & re.I:
